@@ -60,10 +60,15 @@ type Node struct {
 	// knobs
 	NumVB       int // simulated vbuckets for feed ordering (power of two)
 	FeedWorkers int
-	ReadFaults  bool          // offer fault alternatives on reads too
-	QueryFaults bool          // offer the error alternative on view queries
-	StallFor    time.Duration // how long a "stall" fault holds an operation (default 8s)
-	NoFaultKeys func(key string) bool
+	ReadFaults  bool // offer fault alternatives on reads too
+	QueryFaults bool // offer the error alternative on view queries
+	// FeedLag is the (simulated) time a mutation spends on its way before it can be delivered: several mutations of
+	// one key can then be on their way at once, as with a real feed
+	FeedLag time.Duration
+	// FeedFaultKeys, when set, restricts feed deduplication to events of keys it accepts
+	FeedFaultKeys func(key string) bool
+	StallFor      time.Duration // how long a "stall" fault holds an operation (default 8s)
+	NoFaultKeys   func(key string) bool
 }
 
 // OpInfo describes an applied (or failed) storage operation.
@@ -927,6 +932,9 @@ func (f *FeedPipe) enqueue(ev sgbucket.FeedEvent) {
 		return
 	}
 	vb := f.vbOf(ev.Key)
+	if ev.TimeReceived.IsZero() {
+		ev.TimeReceived = time.Now()
+	}
 	f.mu.Lock()
 	f.queues[vb] = append(f.queues[vb], ev)
 	f.mu.Unlock()
@@ -954,6 +962,9 @@ func (f *FeedPipe) optsFor(worker, workers int) []string {
 		if len(q) == 0 {
 			continue
 		}
+		if lag := f.node.FeedLag; lag > 0 && vb >= 0 && time.Since(q[0].TimeReceived) < lag {
+			continue // still on its way
+		}
 		w := vb % workers
 		if vb < 0 {
 			w = 0
@@ -977,6 +988,12 @@ func (f *FeedPipe) runWorker(t *verifsim.Task, worker, workers int) {
 			Opts: func() []string { return f.optsFor(worker, workers) },
 		}
 		pp.Alts = []string{AltFeedDedup, AltFeedRedeliver}
+		pp.AltOK = func(a string) bool {
+			if a == AltFeedDedup {
+				return f.FeedFaultPossible("dedup")
+			}
+			return f.FeedFaultPossible("redeliver")
+		}
 		alt := s.Park(pp)
 		if alt == "exit" || f.closed.Load() {
 			return
@@ -1010,6 +1027,33 @@ func (f *FeedPipe) runWorker(t *verifsim.Task, worker, workers int) {
 	}
 }
 
+// FeedFaultPossible reports whether a feed fault of that kind would change anything right now.
+func (f *FeedPipe) FeedFaultPossible(kind string) bool {
+	f.mu.Lock()
+	defer f.mu.Unlock()
+	switch kind {
+	case "dedup":
+		for vb, q := range f.queues {
+			if vb < 0 || len(q) < 2 {
+				continue
+			}
+			for i := range q[:len(q)-1] {
+				if f.node != nil && f.node.FeedFaultKeys != nil && !f.node.FeedFaultKeys(string(q[i].Key)) {
+					continue
+				}
+				for _, later := range q[i+1:] {
+					if string(later.Key) == string(q[i].Key) {
+						return true
+					}
+				}
+			}
+		}
+	case "redeliver":
+		return len(f.last) > 0
+	}
+	return false
+}
+
 // FeedFault applies a feed fault chosen by the harness' plan at a quiescent
 // instant of the scheduler: "dedup" drops a queued event that is superseded by
 // a later queued event of the same key; "redeliver" re-queues the last
@@ -1021,35 +1065,39 @@ func (f *FeedPipe) FeedFault(kind string, pick int) bool {
 	var vbs []int
 	switch kind {
 	case "dedup":
+		// every queued event that a later queued event of the same key supersedes is a candidate
+		type cand struct{ vb, i int }
+		var cands []cand
 		for vb, q := range f.queues {
 			if vb < 0 || len(q) < 2 {
 				continue
 			}
 			for i := range q[:len(q)-1] {
+				if f.node != nil && f.node.FeedFaultKeys != nil && !f.node.FeedFaultKeys(string(q[i].Key)) {
+					continue
+				}
 				for _, later := range q[i+1:] {
 					if string(later.Key) == string(q[i].Key) {
-						vbs = append(vbs, vb)
-						goto next
+						cands = append(cands, cand{vb, i})
+						break
 					}
 				}
 			}
-		next:
 		}
-		if len(vbs) == 0 {
+		if len(cands) == 0 {
 			return false
 		}
-		sort.Ints(vbs)
-		vb := vbs[pick%len(vbs)]
-		q := f.queues[vb]
-		for i := range q[:len(q)-1] {
-			for _, later := range q[i+1:] {
-				if string(later.Key) == string(q[i].Key) {
-					f.queues[vb] = append(append([]sgbucket.FeedEvent{}, q[:i]...), q[i+1:]...)
-					f.Dedup.Add(1)
-					return true
-				}
+		sort.Slice(cands, func(a, b int) bool {
+			if cands[a].vb != cands[b].vb {
+				return cands[a].vb < cands[b].vb
 			}
-		}
+			return cands[a].i < cands[b].i
+		})
+		c := cands[pick%len(cands)]
+		q := f.queues[c.vb]
+		f.queues[c.vb] = append(append([]sgbucket.FeedEvent{}, q[:c.i]...), q[c.i+1:]...)
+		f.Dedup.Add(1)
+		return true
 	case "redeliver":
 		for vb := range f.last {
 			vbs = append(vbs, vb)
